@@ -34,13 +34,13 @@ import (
 //
 // A discrepancy that persists is reported when it first appears (or changes), not at every later step.
 type Monitor struct {
-	prev map[string]bool // discrepancies present after the previous command
+	prev map[string]string // discrepancies present after the previous command: key -> signature given when it appeared
 	// history facts used only to NAME a finding (signature), never to decide it
 	caseNames     bool            // two service names differing only in case were registered in this history
 	importedPairs map[string]bool // (upstream, downstream) pairs an imported sidecar declared at some point of this history
 }
 
-func NewMonitor() *Monitor { return &Monitor{prev: map[string]bool{}, importedPairs: map[string]bool{}} }
+func NewMonitor() *Monitor { return &Monitor{prev: map[string]string{}, importedPairs: map[string]bool{}} }
 
 type finding struct {
 	sig, key, desc string
@@ -426,10 +426,10 @@ func (m *Monitor) vips(w *World, t *state.VerifC07Tables) (out []finding) {
 		cur, has := assigned[key]
 		switch {
 		case !has:
-			out = append(out, finding{"vip:advertised-address-has-no-assignment", "vipadv/" + svcKey(v.PeerName, v.Node, v.ServiceID),
+			out = append(out, finding{"vip:advertised-address-has-no-assignment", "vipadv-none/" + svcKey(v.PeerName, v.Node, v.ServiceID),
 				fmt.Sprintf("instance %s advertises virtual IP %s for service %q, which has no virtual IP assigned", inst, a.Address, cn)})
 		case cur != off:
-			out = append(out, finding{"vip:advertised-address-differs-from-assignment", "vipadv/" + svcKey(v.PeerName, v.Node, v.ServiceID),
+			out = append(out, finding{"vip:advertised-address-differs-from-assignment", "vipadv-diff/" + svcKey(v.PeerName, v.Node, v.ServiceID),
 				fmt.Sprintf("instance %s advertises virtual IP %s (offset %s) for service %q, whose assignment is offset %s", inst, a.Address, off, cn, cur)})
 		}
 		if other, ok := adv[off]; ok && other != key {
@@ -576,6 +576,9 @@ func (m *Monitor) gateways(w *World, t *state.VerifC07Tables) (out []finding) {
 		why := "no-instance-to-front"
 		n := lower(g.service)
 		switch {
+		case g.wildcard && g.kind == "ingress-gateway" && !f.dest[n] && !f.connect[n]:
+			// not a destination either: the link was right once and was not cleaned when the instance stopped being connect-enabled
+			why = "not-cleaned-on-re-registration"
 		case !g.wildcard:
 			why = "not-in-config-entry"
 		case g.kind == "ingress-gateway" && f.connect[n], g.kind == "terminating-gateway" && (f.typicalNonNative[n] || f.dest[n]):
@@ -619,13 +622,48 @@ func (m *Monitor) gateways(w *World, t *state.VerifC07Tables) (out []finding) {
 
 // ---------------------------------------------------------------- (7) mesh-topology
 
-func (m *Monitor) topology(t *state.VerifC07Tables) (out []finding) {
+// removes says whether the command deregisters something (a deregistration, a rename by node ID, a
+// transaction with a delete verb): used only to NAME a missing pair (which mechanism lost it).
+func removes(before *state.VerifC07Tables, op *Op) bool {
+	switch op.Kind {
+	case "dereg":
+		return true
+	case "reg":
+		for _, n := range before.Nodes {
+			if op.Node.ID != "" && strings.EqualFold(n.PeerName, op.Peer) && strings.EqualFold(string(n.ID), op.Node.ID) && !strings.EqualFold(n.Node, op.Node.Name) {
+				return true
+			}
+		}
+	case "xtxn":
+		for i := range op.Txn {
+			v := op.Txn[i].Verb
+			if op.Txn[i].Base != nil {
+				v = op.Txn[i].Base.Verb
+			}
+			if strings.HasPrefix(v, "delete") {
+				return true
+			}
+		}
+	}
+	return false
+}
+
+func (m *Monitor) topology(before, t *state.VerifC07Tables, op *Op) (out []finding) {
 	type row struct {
 		refs map[string]bool
-		why  string
+		why  string // sidecar (a local one declares it) > ingress-named-link > ingress-wildcard-expansion > imported-sidecar
 	}
+	rank := map[string]int{"sidecar": 4, "ingress-named-link": 3, "ingress-wildcard-expansion": 2, "imported-sidecar": 1}
 	want := map[string]*row{}
 	key := func(up, down string) string { return lower(up) + "\x00" + lower(down) }
+	declare := func(k, why string) *row {
+		if want[k] == nil {
+			want[k] = &row{map[string]bool{}, why}
+		} else if rank[why] > rank[want[k].why] {
+			want[k].why = why
+		}
+		return want[k]
+	}
 	for _, v := range t.Services {
 		// the store also records the pairs of imported sidecars (updateMeshTopology does not look at the peer);
 		// they are accepted here, only their references are not demanded
@@ -634,20 +672,20 @@ func (m *Monitor) topology(t *state.VerifC07Tables) (out []finding) {
 		}
 		for _, u := range v.ServiceProxy.Upstreams {
 			k := key(u.DestinationName, v.ServiceProxy.DestinationServiceName)
-			if want[k] == nil {
-				want[k] = &row{map[string]bool{}, "sidecar"}
-			}
 			if isLocal(v.PeerName) {
 				sid := v.CompoundServiceID()
-				want[k].refs[lower(structs.UniqueID(v.Node, sid.String()))] = true
+				declare(k, "sidecar").refs[lower(structs.UniqueID(v.Node, sid.String()))] = true
+			} else {
+				declare(k, "imported-sidecar")
 			}
 		}
 	}
 	for _, g := range gatewayServicesOf(t) {
 		if g.kind == "ingress-gateway" && g.service != "*" {
-			k := key(g.service, g.gateway)
-			if want[k] == nil {
-				want[k] = &row{map[string]bool{}, "ingress"}
+			if g.wildcard {
+				declare(key(g.service, g.gateway), "ingress-wildcard-expansion")
+			} else {
+				declare(key(g.service, g.gateway), "ingress-named-link")
 			}
 		}
 	}
@@ -659,8 +697,24 @@ func (m *Monitor) topology(t *state.VerifC07Tables) (out []finding) {
 		g, ok := got[k]
 		p := strings.SplitN(k, "\x00", 2)
 		if !ok {
-			out = append(out, finding{"topology:missing-pair:" + r.why, "topo-missing/" + k,
-				fmt.Sprintf("mesh-topology lacks upstream %s <- downstream %s although a %s declares it", p[0], p[1], r.why)})
+			sig := ""
+			switch r.why {
+			case "sidecar":
+				// lost by a deregistration: the pair went away with ANOTHER sidecar's registration (references lost);
+				// lost by a registration: another sidecar dropped the upstream and DeleteAll removed the shared row
+				sig = "topology:missing-pair:sidecar"
+				if !removes(before, op) {
+					sig = "topology:missing-pair:sidecar:upstream-dropped-by-another-sidecar"
+				}
+			case "imported-sidecar":
+				sig = "topology:missing-pair:imported-sidecar-declares-it"
+			case "ingress-named-link":
+				sig = "topology:missing-pair:ingress-named-link"
+			default:
+				sig = "topology:missing-pair:ingress"
+			}
+			out = append(out, finding{sig, "topo-missing/" + k,
+				fmt.Sprintf("mesh-topology lacks upstream %s <- downstream %s although it is declared (%s)", p[0], p[1], r.why)})
 			continue
 		}
 		if r.why == "sidecar" {
@@ -676,15 +730,24 @@ func (m *Monitor) topology(t *state.VerifC07Tables) (out []finding) {
 			}
 		}
 	}
+	ingressLink := map[string]bool{} // (service, gateway) of the ingress rows the gateway-services TABLE holds
+	for _, g := range t.Gateway {
+		if g.GatewayKind == structs.ServiceKindIngressGateway {
+			ingressLink[key(g.Service.Name, g.Gateway.Name)] = true
+		}
+	}
 	for k := range got {
 		if _, ok := want[k]; !ok {
 			p := strings.SplitN(k, "\x00", 2)
 			why := "no-sidecar-or-ingress-link-declares-it"
-			if m.importedPairs[k] {
+			switch {
+			case ingressLink[k]:
+				why = "follows-stale-ingress-link"
+			case m.importedPairs[k]:
 				why = "imported-sidecar-that-declared-it-is-gone"
 			}
 			out = append(out, finding{"topology:stale-pair:" + why, "topo-stale/" + k,
-				fmt.Sprintf("mesh-topology holds upstream %s <- downstream %s but nothing registered locally declares it (%s)", p[0], p[1], why)})
+				fmt.Sprintf("mesh-topology holds upstream %s <- downstream %s but nothing registered declares it (%s)", p[0], p[1], why)})
 		}
 	}
 	return
@@ -734,15 +797,25 @@ func (m *Monitor) Check(w *World, before, after *Snap, op *Op, res string) []fin
 	fs = append(fs, m.kindNames(w, t)...)
 	fs = append(fs, m.vips(w, t)...)
 	fs = append(fs, m.gateways(w, t)...)
-	fs = append(fs, m.topology(t)...)
-	now := map[string]bool{}
+	fs = append(fs, m.topology(&before.T, t, op)...)
+	// a discrepancy keeps the signature it was given when it appeared (the naming may look at the command
+	// that introduced it); it is reported once, when it appears
+	now := map[string]string{}
 	var out []finding
 	for _, f := range fs {
-		k := f.sig + "|" + f.key
-		now[k] = true
-		if !m.prev[k] {
-			out = append(out, f)
+		k := f.key
+		if k == "" {
+			k = f.sig + "|" + f.desc
 		}
+		if sig, ok := m.prev[k]; ok {
+			now[k] = sig
+			continue
+		}
+		if _, dup := now[k]; dup {
+			continue
+		}
+		now[k] = f.sig
+		out = append(out, f)
 	}
 	m.prev = now
 	return append(out, cascades(&before.T, t, op, res)...)
